@@ -83,6 +83,22 @@ def run_case(ctx, name, params):
             else:
                 ind = Individual(vec)
                 reuse[key] = ind
+            if r.random() < 0.25:
+                # a design whose vector is a numpy array (CMA-ES / CEM style generators build such designs), evaluated twice:
+                # evaluation must not write into the design, and the second answer must be the first
+                ind = Individual(np.array([float(v) for v in x], dtype=float))
+                before = [float(v) for v in ind.vector]
+                first = [float(v) for v in prob.evaluate(ind)]
+                ctx.count("numpy_array_designs_evaluated_twice")
+                if [float(v) for v in ind.vector] != before:
+                    ctx.violation("%s/design_modified_by_evaluate" % fam, "%s.evaluate changed the vector of the design it was given" % fam,
+                                  {"before": before, "after": [float(v) for v in ind.vector]})
+                    return None
+                second = [float(v) for v in prob.evaluate(ind)]
+                if second != first:
+                    ctx.violation("%s/second_evaluation_differs" % fam, "evaluating the same design twice gives %r then %r" % (first, second),
+                                  {"x": before})
+                    return None
             res = prob.evaluate(ind)
             out = [float(v) for v in res]
         except Exception as e:
